@@ -98,7 +98,7 @@ dj::track_snapshot example_snapshot(int kind, int n);
 // Full observation of a world through the public API only, as canonical text (one line per fact).
 // Handles listed in tracks/crates are observed (stale ones through is_valid()/id() only).
 std::string observe(World& w, bool include_track_fields = true, bool include_handles = true);
-std::string observe_track(const dj::track& t);
+std::string observe_track(const dj::track& t, bool even_if_invalid = false);
 std::string snapshot_str(const dj::track_snapshot& s);  // one "snapshot.<field> = <text>" line per field
 // parse "name = value" lines into a map (name without the "track#<id>." prefix when strip_prefix is given)
 std::map<std::string, std::string> facts_of(const std::string& observation, const std::string& strip_prefix = "");
